@@ -21,10 +21,15 @@
         `v<N>` / `l`, `-` = absent:
         `as to op` `ca to` `of to op` `rd to op` `wr dst val` `cp dst src` `cl dst src`
         `rt to|- op…` `cm to op…` `cs to|- ctx callee-id|- retptr|- op…` `dr op` `re op|-` `ct`
+     c05 defuse <initial vars…> | B0 | B1 | …  → ok <n blocks> | bad <block> <instruction index|succ> <var|block>
+        with B = `<successor block indices…> ; I1 ; I2 …` and I = `<vars read…> > <var defined|->`:
+        the definite-assignment check of `Model/BoundaryDefUse.lean` (`Cfg.check` with the certificate
+        `certify`) on the blocks of one lowered function, entry block first
 -/
 import Driver.Util
 import RotoV.Model.Boundary
 import RotoV.Model.BoundaryStore
+import RotoV.Model.BoundaryDefUse
 
 namespace Driver.C05
 open RotoV RotoV.Boundary RotoV.Gen.BoundaryTables
@@ -309,9 +314,54 @@ def doProv (ws : List String) : String :=
       | none => "bad"
   | none => "bad-op"
 
+-- ------------------------------------------------------------------ definite assignment
+
+open RotoV.BoundaryDefUse in
+def parseIns (ws : List String) : Option Ins :=
+  match splitAt ">" ws with
+  | [uses, [d]] => do
+    let us ← uses.mapM (·.toNat?)
+    if d = "-" then some { uses := us, defs := none } else some { uses := us, defs := some (← d.toNat?) }
+  | _ => none
+
+open RotoV.BoundaryDefUse in
+def parseBlock (ws : List String) : Option Block :=
+  match splitAt ";" ws with
+  | succs :: instrs => do
+    some { succs := (← succs.mapM (·.toNat?)), instrs := (← (instrs.filter (· ≠ [])).mapM parseIns) }
+  | [] => none
+
+open RotoV.BoundaryDefUse in
+/-- the first instruction of a block that reads a variable outside the set -/
+def firstBadRead : List Ins → List Nat → Nat → Option (Nat × Nat)
+  | [], _, _ => none
+  | i :: rest, s, k =>
+    match i.uses.find? (fun u => !s.contains u) with
+    | some u => some (k, u)
+    | none => firstBadRead rest (match i.defs with | some d => d :: s | none => s) (k + 1)
+
+open RotoV.BoundaryDefUse in
+def doDefUse (ws : List String) : String :=
+  match splitAt "|" ws with
+  | init :: blocks =>
+    match init.mapM (·.toNat?), blocks.mapM parseBlock with
+    | some initial, some bs =>
+      let g := certify { blocks := bs, initial := initial, entrySets := [] }
+      if g.check then s!"ok {bs.length}"
+      else
+        match (g.blocks.zipIdx).find? (fun p => !g.blockOk p.2 p.1) with
+        | some (blk, b) =>
+          match firstBadRead blk.instrs (g.entrySet b) 0 with
+          | some (k, u) => s!"bad {b} {k} {u}"
+          | none => s!"bad {b} succ"
+        | none => "bad entry"
+    | _, _ => "bad-op"
+  | [] => "bad-op"
+
 def handle (args : List String) : String :=
   match args with
   | "prov" :: rest => doProv rest
+  | "defuse" :: rest => doDefUse rest
   | "layout" :: h :: ty =>
     match parseHost h, parseTyAll ty with
     | some h, some t => doLayout h t
